@@ -69,9 +69,11 @@ def random_pattern(rng):
         if rng.random() < 0.4:
             x = quant(x)
         k = rng.random()
-        if k < 0.15:
+        if k < 0.08 and not x[0] == "tok":
+            return ["new", rng.choice(["MatchAtStart", "MatchAtEnd", "MatchAtLineStart", "MatchAtLineEnd"]), x]
+        if k < 0.2:
             return ["new", "Capture", x] + ([rng.choice(["g", "h"]) + str(rng.randrange(100))] if rng.random() < 0.4 else [])
-        if k < 0.25:
+        if k < 0.3:
             return ["new", "Group", x, rng.random() < 0.5]
         return x
 
@@ -107,6 +109,13 @@ def generate(run_seed, tier):
         else:
             instances["i%d" % i] = {"recipe": corpus.recipe_of(n), "name": n}
     k = len(instances)
+    if wl.random() < 0.15:
+        # "escape twins": the same constructor text once as a literal and once as a hand-written regex
+        tw = wl.choice(["a.c", "a+", "x|y", "[ab]", "a?b", "a*", "(a)", "a{2}", "^a", "a$", "\\d"])
+        instances["i%d" % k] = {"recipe": ["lit", tw], "name": "twin_lit"}
+        instances["i%d" % (k + 1)] = {"recipe": ["raw", tw], "name": "twin_raw"}
+        extra_words.extend([tw, "abc", "aaa", "ab", "a", "x", "7", "aa"])
+        k += 2
     aliases = {}
     if wl.random() < 0.5:                       # equal-text duplicate (distinct object)
         src = wl.choice(sorted(instances))
